@@ -8,4 +8,5 @@ f20_0:
   call f2_0
   call f3_0
   call f19_1
+  mov wvsv0@GOTPCREL(%rip),%rax
   ret
